@@ -222,3 +222,40 @@ proof fn path_prefix<M: Model>(m: M, ss: Seq<M::State>)
     assert(pre.last() == ss[ss.len() - 2]);
     assert(is_succ(m, ss[ss.len() - 2], ss[ss.len() - 2 + 1]));
 }
+
+// C01 cardinality: a set of states on which fingerprints are collision free has as many elements as its set of
+// fingerprints (induction on the size; every vstd `Set` is finite)
+//@props C01
+proof fn bij_len<A>(r: Set<A>, d: Set<Fingerprint>)
+    requires
+        forall|a: A, b: A| r.contains(a) && r.contains(b) && #[trigger] fp_of(a) == #[trigger] fp_of(b) ==> a == b,
+        forall|a: A| #[trigger] r.contains(a) ==> d.contains(fp_of(a)),
+        forall|k: Fingerprint| #[trigger] d.contains(k) ==> exists|a: A| r.contains(a) && #[trigger] fp_of(a) == k,
+    ensures r.len() == d.len()
+    decreases r.len()
+{
+    if r.len() == 0 {
+        assert(r =~= Set::<A>::empty()) by {
+            if exists|a: A| r.contains(a) { let a = choose|a: A| r.contains(a); assert(r.remove(a).len() + 1 == r.len()); }
+        }
+        assert(d =~= Set::<Fingerprint>::empty());
+    } else {
+        let a = r.choose();
+        assert(r.contains(a));
+        let r2 = r.remove(a);
+        let d2 = d.remove(fp_of(a));
+        assert forall|k: Fingerprint| #[trigger] d2.contains(k) implies exists|b: A| r2.contains(b) && #[trigger] fp_of(b) == k by {
+            let b = choose|b: A| r.contains(b) && #[trigger] fp_of(b) == k;
+            assert(r2.contains(b));
+        }
+        bij_len(r2, d2);
+        assert(r2.len() + 1 == r.len());
+        assert(d2.len() + 1 == d.len());
+    }
+}
+// C01 "state_count is at least as large": what `state-count` and `count-covers-unique` of one block add up to
+//@props C01
+proof fn state_count_covers(sc0: usize, cnt0: nat, sc1: usize, cnt1: nat, gen0: nat, gen1: nat)
+    requires count_ok(sc0, cnt0, sc1, cnt1), cnt1 - cnt0 >= gen1 - gen0, sc0 >= gen0, sc0 + (cnt1 - cnt0) <= usize::MAX
+    ensures sc1 >= gen1
+{}
